@@ -31,11 +31,15 @@ pub struct StackShape {
     /// of the same file. The writer's mapping list merges the two lines (same name), so the
     /// "mapping" the stack lies in extends over memory that cannot be read.
     pub noaccess_file_tail_pages: u64,
+    /// the stack is placed in LOW memory (from 256 MiB upward, below the control mapping and below
+    /// the executable image): the first such stack is the lowest mapping of the whole process, the
+    /// way MAP_32BIT / fixed-address arenas, coroutine stacks and managed-runtime heaps are
+    pub low: bool,
 }
 
 impl Default for StackShape {
     fn default() -> Self {
-        StackShape { pages: 4, sp_offset: 2 * 4096 + 512, guard_mapping_pages: 0, fill_pattern: true, slots: Vec::new(), prot: 6, noaccess_file_tail_pages: 0 }
+        StackShape { pages: 4, sp_offset: 2 * 4096 + 512, guard_mapping_pages: 0, fill_pattern: true, slots: Vec::new(), prot: 6, noaccess_file_tail_pages: 0, low: false }
     }
 }
 
@@ -56,6 +60,7 @@ pub struct Builder {
     pub spec: Spec,
     pub opts: SpawnOpts,
     next: u64,
+    low_next: u64,
     pub stubs_region: Option<usize>,
     stub_next: u64,
     pub sentinels: Vec<SentinelTruth>,
@@ -73,6 +78,7 @@ impl Builder {
             spec: Spec::default(),
             opts: SpawnOpts::default(),
             next: REGION_BASE,
+            low_next: 0x1000_0000,
             stubs_region: None,
             stub_next: 0,
             sentinels: Vec::new(),
@@ -176,6 +182,9 @@ impl Builder {
         // that the 1 MiB guard-search window of one stack never reaches another region
         let mut stack_base = 0;
         if shape.pages > 0 {
+            if shape.low {
+                std::mem::swap(&mut self.next, &mut self.low_next);
+            }
             if shape.guard_mapping_pages > 0 {
                 let g = self.alloc(shape.guard_mapping_pages, 300);
                 self.add_region(Region { addr: g, len: shape.guard_mapping_pages * PAGE, prot: 0, kind: RegionKind::Anon, fill: Fill::Keep, pokes: Vec::new(), unlink_after: false });
@@ -209,6 +218,9 @@ impl Builder {
             }
             // keep the page after the stack unmapped
             self.next += PAGE;
+            if shape.low {
+                std::mem::swap(&mut self.next, &mut self.low_next);
+            }
         }
         let code: &[u8] = match mode {
             Mode::Spin => STUB_SPIN,
